@@ -190,13 +190,13 @@ _CRET = {}
 
 
 def closure_ret_units(P, cp):
-    key = (id(P), cp)
-    if key not in _CRET:
-        _CRET[key] = set()
+    cache = P.__dict__.setdefault("_closure_ret_units", {})
+    if cp not in cache:
+        cache[cp] = set()
         c = P.funcs[cp]
         us, _ = analyse(c, P)
-        _CRET[key] = set(us.get(0, set()))
-    return _CRET[key]
+        cache[cp] = set(us.get(0, set()))
+    return cache[cp]
 
 
 CMP = ("Lt", "Le", "Gt", "Ge", "Eq", "Ne")
